@@ -8,7 +8,7 @@ import (
 	"verif/vkit"
 )
 
-var coll = vkit.NewCollector("C18", "TestFold", "sequences of 1-40 insert/update/update-with-old/delete/delete-with-old/reset/snapshot-start/snapshot-end messages over entity types {user, order, 'a/b' registered; ghost unregistered} and keys {1, 2, a/b, b/c, unicode, user/1}, strict and non-strict, built with the helper constructors and either published (value and pointer forms) through a bus + store and replayed or applied directly; the log is also applied in two sessions split at a drawn point, the second resumed from LastOffset. Oracle = last-writer-wins fold: Get/All of every collection, reset and snapshot callback counts, LastOffset, strict-mode stop with unchanged state; two sessions == one. Non-trivial = a delete or reset after a write of the same key with the split strictly inside.")
+var coll = vkit.NewCollector("C18", "TestFold", "sequences of 1-40 insert/update/update-with-old/delete/delete-with-old/reset/snapshot-start/snapshot-end messages over entity types {user, order, 'a/b' registered; ghost unregistered} and keys {1, 2, a/b, b/c, unicode, user/1}, strict and non-strict, built with the helper constructors and either published (value and pointer forms) through a bus + store (memory, SQLite with its unpadded offsets crossing 9->10, durable-streams) and replayed, or applied directly as hand-built events whose offsets are zero-padded, unpadded or opaque unordered tokens; the log is also applied in two sessions split at a drawn point, the second resumed from LastOffset. Oracle = last-writer-wins fold: Get/All of every collection, reset and snapshot callback counts, LastOffset, strict-mode stop with unchanged state; two sessions == one. Non-trivial = a delete or reset after a write of the same key with the split strictly inside.")
 
 func TestMain(m *testing.M) { vkit.Main(m) }
 
